@@ -333,6 +333,10 @@ inductive DAct where
   | compactBegin (o : Oracle)
   /-- under `db.mu`: the pending change set is applied; this is `Lsm.step (.compact ..)`, guarded by `Lsm.safeCS` -/
   | compactCommit
+  /-- a `Compact` call that would have produced a change set but whose table write (or a table scan) failed: the
+  task returns the error, no change set exists, the level list is not touched; the cursor has moved where the code
+  increments it before writing (`c.minorCompactionLevel++` precedes `WriteRun`) -/
+  | compactFail (o : Oracle)
 
 def DB.step (d : DB) : DAct → Option DB
   | .fg a => if isCompact a then none else (Lsm.step d.s a).map (fun s' => { d with s := s' })
@@ -344,6 +348,11 @@ def DB.step (d : DB) : DAct → Option DB
     match d.pending with
     | none => none
     | some cs => (Lsm.step d.s (.compact cs.rm cs.lvl cs.add)).map (fun s' => { d with s := s', pending := none })
+  | .compactFail o =>
+    match d.pending with
+    | some _ => none
+    | none =>
+      if (compact d.c d.s.levels o).1.isSome then some { d with c := (compact d.c d.s.levels o).2 } else none
 
 /-- the specification map follows the foreground writes -/
 def DB.specStep (d : DB) (m : Lsm.Spec) : DAct → Lsm.Spec
